@@ -67,6 +67,12 @@ func (f *inlineFragmentSelectionMergeVisitor) fieldsCanMerge(left, right int) bo
 		return false
 	}
 
+	// fields called with different arguments are different fields: merging them would silently
+	// drop the arguments of the second one instead of leaving the conflict to validation
+	if !f.operation.ArgumentSetsAreEquals(f.operation.FieldArguments(left), f.operation.FieldArguments(right)) {
+		return false
+	}
+
 	leftDirectives := f.operation.FieldDirectives(left)
 	rightDirectives := f.operation.FieldDirectives(right)
 
